@@ -204,7 +204,7 @@ PROPS = {
         "kx": [],
         "technique": "Verus postconditions (both directions) on the extracted ReplicationFactor, Target::new, Announcer::{is_target_reached,synced_with,timed_out}, Fetcher::{is_target_reached,include_node,next_fetch,ready_to_fetch} against a target_met spec written from the statement",
         "explanation": "is_target_reached returns Some exactly when the target is met (announcer: all preferred seeds synced and the replica count reached; fetcher: all preferred seeds fetched or the replica count reached; the count is the maximum of a range, else the minimum); Announcer::timed_out reports Success exactly then and TimedOut otherwise; synced_with(local node) changes nothing; Fetcher::include_node excludes the local node and nodes that already have a result; ReplicationFactor::range/min keep lower < upper.",
-        "not_decided": "success_counts (fold closures), next_node (iter::from_fn + find_map), Announcer::new, Fetcher::finish, missing_seeds are not ingested -- in particular that Announcer::new removes the local node from all three input sets is NOT decided (seeded change C25_3, which forgets the `synced` set there, is missed: exit 0); the counts are ghost values assumed to be what success_counts returns.",
+        "not_decided": "success_counts (fold closures), next_node (iter::from_fn + find_map), Announcer::new, Fetcher::finish, missing_seeds are not ingested -- in particular that Announcer::new removes the local node from all three input sets is NOT decided (a change that forgets the `synced` set there goes unnoticed by this check: exit 0; the existing test rad_sync catches it); the counts are ghost values assumed to be what success_counts returns.",
     },
     "C26": {
         "vx": ["term", "term_line"],
